@@ -127,6 +127,9 @@ func runJSONStream(seed int64, n int, out, backendSpec string) *RunReport {
 				rec(&Op{Kind: "CreateIndex", Coll: "src", Field: "a"})
 			}
 			ndocs := g.Intn(9)
+			if round%4 == 0 {
+				ndocs = 0 // the empty collection, always among the rounds
+			}
 			docs := make([]map[string]interface{}, ndocs)
 			for i := range docs {
 				docs[i] = keyDomSanitize(h.doc(fmt.Sprintf("%08x-0000-4000-8000-%012x", i, g.Intn(1<<30)))).(map[string]interface{})
@@ -209,6 +212,26 @@ func runJSONStream(seed int64, n int, out, backendSpec string) *RunReport {
 					f.failf("Count of the imported collection is %d, source has %d", n1, len(src))
 				}
 				distinct[fmt.Sprintf("roundtrip/%s/idx%v/n%d", be, withIdx, min3(ndocs))] = true
+			}
+			// a second export to the same path replaces the file (a shorter export after a longer one leaves no tail), and a
+			// new name that is a proper prefix of an existing collection's name is a new name
+			if err := db.ExportCollection("other", path); err != nil {
+				f.failf("ExportCollection to an existing path failed: %v", err)
+			} else {
+				raw2, _ := os.ReadFile(path)
+				var parsed2 []map[string]interface{}
+				if err := json.Unmarshal(raw2, &parsed2); err != nil {
+					f.failf("a file exported over a longer one is not valid JSON: %v (%s)", err, clip(string(raw2), 200))
+				} else if no, _ := db.Count(query.NewQuery("other")); len(parsed2) != no {
+					f.failf("a file exported over a longer one holds %d documents, the collection %d", len(parsed2), no)
+				}
+				if err := db.ImportCollection("sr", path); err != nil {
+					f.failf("ImportCollection under \"sr\" (a proper prefix of the existing name \"src\") failed: %v", err)
+				} else if n2, _ := db.Count(query.NewQuery("sr")); n2 != len(parsed2) {
+					f.failf("ImportCollection under \"sr\" stored %d of %d documents", n2, len(parsed2))
+				}
+				db.DropCollection("sr")
+				evals += 2
 			}
 			// failure paths leave every existing collection alone
 			snap := func() string {
